@@ -15,7 +15,7 @@ EXTENDS Integers, Sequences, FiniteSets, TLC, Json, XJudge
 CONSTANTS NReq,      \* number of requests of a scenario
           Conns,     \* downstream connections (1..k)
           MaxSteps,  \* length of the enumerated schedules
-          Defects    \* {} = intended design | "HijackIdFromFrame" | "NoDelete" | "ArrivalOrder"
+          Defects    \* {} = intended design | "HijackIdFromFrame" | "NoDelete" | "ArrivalOrder" | "RecycleWhileReferenced"
 
 Reqs == 1..NReq
 Fresh(r) == 1000 + r          \* the client's own id space; upstream ids count 1,2,3.. per upstream connection
@@ -31,16 +31,18 @@ VARIABLES
   frameid,  \* proxy: id field of the (shared) request frame object of r
   nextU, epoch,
   bad,      \* kinds of fault the clients found so far
+  stale,    \* token of a response whose handler still holds a reference to the per-request objects of a request that has
+            \* meanwhile ended by timeout (0 = none)
   ghosted, closed,
   hist
-vars == <<creq, uans, udup, tmo, uid, uep, ptab, alive, frameid, nextU, epoch, bad, ghosted, closed, hist>>
+vars == <<creq, uans, udup, tmo, uid, uep, ptab, alive, frameid, nextU, epoch, bad, stale, ghosted, closed, hist>>
 
 Unsent == [st |-> "unsent", conn |-> 0, dsid |-> 0, short |-> FALSE, closedSince |-> FALSE]
 
 Init == /\ creq = [r \in Reqs |-> Unsent] /\ uans = {} /\ udup = {} /\ tmo = {}
         /\ uid = [r \in Reqs |-> 0] /\ uep = [r \in Reqs |-> 0]
         /\ ptab = <<>> /\ alive = {} /\ frameid = [r \in Reqs |-> 0]
-        /\ nextU = 0 /\ epoch = 0 /\ bad = {} /\ ghosted = FALSE /\ closed = FALSE /\ hist = <<>>
+        /\ nextU = 0 /\ epoch = 0 /\ bad = {} /\ stale = 0 /\ ghosted = FALSE /\ closed = FALSE /\ hist = <<>>
 
 OpenOn(c, id) == { r \in Reqs : creq[r].st = "open" /\ creq[r].conn = c /\ creq[r].dsid = id }
 DoneOn(c, id) == { r \in Reqs : creq[r].st = "replied" /\ creq[r].conn = c /\ creq[r].dsid = id }
@@ -63,14 +65,19 @@ Send(r, c, mode, short) ==
                  /\ OpenOn(c, uid[mode]) = {}
   /\ LET d == IF mode = 0 THEN Fresh(r) ELSE uid[mode]
          u == nextU + 1
-     IN /\ creq' = [creq EXCEPT ![r] = [Unsent EXCEPT !.st = "open", !.conn = c, !.dsid = d, !.short = short]]
+         opened == [creq EXCEPT ![r] = [Unsent EXCEPT !.st = "open", !.conn = c, !.dsid = d, !.short = short]]
+         hit == stale # 0 /\ "RecycleWhileReferenced" \in Defects     \* r was given the recycled objects of the ended request
+         res == ClientRecv(opened, c, d, TRUE, stale, TRUE)
+     IN /\ creq' = IF hit THEN res.cq ELSE opened
+        /\ bad' = IF hit THEN bad \cup res.v ELSE bad
+        /\ stale' = IF hit THEN 0 ELSE stale
         /\ uid' = [uid EXCEPT ![r] = u] /\ uep' = [uep EXCEPT ![r] = epoch]
         /\ ptab' = [x \in DOMAIN ptab \cup {u} |-> IF x = u THEN r ELSE ptab[x]]
-        /\ alive' = alive \cup {r}
+        /\ alive' = IF hit THEN alive ELSE alive \cup {r}
         /\ frameid' = [frameid EXCEPT ![r] = u]          \* client stream stamps the shared frame with its own id
         /\ nextU' = u
   /\ hist' = Append(hist, [op |-> "send", r |-> r, conn |-> c, mode |-> mode, short |-> short])
-  /\ UNCHANGED <<uans, udup, tmo, epoch, bad, ghosted, closed>>
+  /\ UNCHANGED <<uans, udup, tmo, epoch, ghosted, closed>>
 
 (* ---- a response frame with upstream id u carrying the token of request t reaches the proxy *)
 Response(u, t) ==
@@ -90,20 +97,20 @@ UpAnswer(r) ==
   /\ Response(uid[r], r)
   /\ uans' = uans \cup {r}
   /\ hist' = Append(hist, [op |-> "ans", r |-> r])
-  /\ UNCHANGED <<udup, tmo, uid, uep, frameid, nextU, epoch, ghosted, closed>>
+  /\ UNCHANGED <<udup, tmo, uid, uep, frameid, nextU, epoch, stale, ghosted, closed>>
 
 UpDup(r) ==
   /\ uid[r] # 0 /\ uep[r] = epoch /\ r \in uans /\ r \notin udup
   /\ Response(uid[r], r)
   /\ udup' = udup \cup {r}
   /\ hist' = Append(hist, [op |-> "dup", r |-> r])
-  /\ UNCHANGED <<uans, tmo, uid, uep, frameid, nextU, epoch, ghosted, closed>>
+  /\ UNCHANGED <<uans, tmo, uid, uep, frameid, nextU, epoch, stale, ghosted, closed>>
 
 Ghost ==
   /\ ~ghosted /\ nextU > 0 /\ ghosted' = TRUE
   /\ Response(nextU + 7, NoTok)
   /\ hist' = Append(hist, [op |-> "ghost"])
-  /\ UNCHANGED <<uans, udup, tmo, uid, uep, frameid, nextU, epoch, closed>>
+  /\ UNCHANGED <<uans, udup, tmo, uid, uep, frameid, nextU, epoch, stale, closed>>
 
 (* ---- the proxy ends request r with an error reply of its own (timeout, upstream reset) *)
 ErrorReply(cq, r) ==
@@ -118,7 +125,23 @@ Timeout(r) ==
   /\ ptab' = [x \in DOMAIN ptab \ {uid[r]} |-> ptab[x]]
   /\ alive' = alive \ {r}
   /\ hist' = Append(hist, [op |-> "tmo", r |-> r])
-  /\ UNCHANGED <<uans, udup, uid, uep, frameid, nextU, epoch, ghosted, closed>>
+  /\ UNCHANGED <<uans, udup, uid, uep, frameid, nextU, epoch, stale, ghosted, closed>>
+
+(* ---- the upstream answers r at the moment its timeout expires: the response has been looked up (and removed from the
+   table) but its handler has not yet touched the request when the timeout ends the request with an error reply.
+   The handler then finds the request ended and drops the response; it must not reach anybody else. *)
+Race(r) ==
+  /\ creq[r].st # "unsent" /\ creq[r].short /\ r \in alive /\ r \notin tmo /\ r \notin uans
+  /\ uid[r] # 0 /\ uep[r] = epoch /\ stale = 0
+  /\ ~ \E h \in 1..Len(hist) : hist[h].op = "race"
+  /\ LET res == ErrorReply(creq, r)
+     IN creq' = res.cq /\ bad' = bad \cup res.v
+  /\ tmo' = tmo \cup {r} /\ uans' = uans \cup {r}
+  /\ ptab' = [x \in DOMAIN ptab \ {uid[r]} |-> ptab[x]]
+  /\ alive' = alive \ {r}
+  /\ stale' = r
+  /\ hist' = Append(hist, [op |-> "race", r |-> r])
+  /\ UNCHANGED <<udup, uid, uep, frameid, nextU, epoch, ghosted, closed>>
 
 RECURSIVE ErrAll(_, _)
 ErrAll(cqb, S) == IF S = {} THEN cqb
@@ -134,11 +157,11 @@ UpClose ==
      IN creq' = res.cq /\ bad' = bad \cup res.v /\ alive' = alive \ waiting
   /\ ptab' = <<>> /\ epoch' = epoch + 1 /\ nextU' = 0
   /\ hist' = Append(hist, [op |-> "close"])
-  /\ UNCHANGED <<uans, udup, tmo, uid, uep, frameid, ghosted>>
+  /\ UNCHANGED <<uans, udup, tmo, uid, uep, frameid, stale, ghosted>>
 
 Next == /\ Len(hist) < MaxSteps
         /\ \/ \E r \in Reqs, c \in Conns, m \in 0..NReq, s \in BOOLEAN : Send(r, c, m, s)
-           \/ \E r \in Reqs : UpAnswer(r) \/ UpDup(r) \/ Timeout(r)
+           \/ \E r \in Reqs : UpAnswer(r) \/ UpDup(r) \/ Timeout(r) \/ Race(r)
            \/ Ghost \/ UpClose
 Spec == Init /\ [][Next]_vars
 
